@@ -1,7 +1,13 @@
 (* Non-vacuity and boundary examples for the AES-CTR theorems (all by vm_compute on the models). *)
 From Coq Require Import NArith List Arith Bool Lia.
-From LCP Require Import Base.CheckedMem Gen.Repo_aes Crypto.AesSpec Crypto.AesProofs Accel.AesNi
-  Crypto.AesCtrModel Crypto.AesRepo Crypto.AesCtrProofs.
+From LCP Require Import Base.CheckedMem.
+From LCP Require Import Gen.Repo_aes.
+From LCP Require Import Crypto.AesSpec.
+From LCP Require Import Crypto.AesProofs.
+From LCP Require Import Accel.AesNi.
+From LCP Require Import Crypto.AesCtrModel.
+From LCP Require Import Crypto.AesRepo.
+From LCP Require Import Crypto.AesCtrProofs.
 Import ListNotations.
 Local Open Scope N_scope.
 
